@@ -200,7 +200,12 @@ GLeaves == <<
     With(DictF(NoF, NoF), [default |-> D1(<<"k">>, IntV(1))]),
     With(DictF(StringF, IntF), [default |-> D2(<<"k">>, IntV(1), <<"m">>, IntV(2))]),
     With(ListF(With(IntF, [hasmin |-> TRUE, min |-> 0])), [default |-> ListV(<<IntV(1), IntV(2)>>)]),
-    With(ChallengeF, [alg |-> "md5", default |-> s(<<"p", "w", "d", "0">>)]) >>
+    With(ChallengeF, [alg |-> "md5", default |-> s(<<"p", "w", "d", "0">>)]),
+    \* defaults given as callables (a fresh value per configuration), the field subclasses with defaults of their own
+    [dcall |-> TRUE] @@ With(ListF(NoF), [default |-> ListV(<<IntV(1)>>)]),
+    [dcall |-> TRUE] @@ With(DictF(StringF, IntF), [default |-> D1(<<"k">>, IntV(1))]),
+    With(LogLevelF, [default |-> s(<<"i", "n", "f", "o">>)]),
+    With(PortF, [default |-> IntV(8080)]) >>
 GSubs == <<
     SchemaF(<< <<"x", With(IntF, [default |-> IntV(1), required |-> TRUE])>>, <<"y", With(StringF, [choices |-> << <<"u">>, <<"v">> >>])>> >>),
     [validators |-> <<"x_not_3">>] @@ SchemaF(<< <<"x", With(IntF, [default |-> IntV(1)])>> >>),
